@@ -71,5 +71,6 @@ macro_rules! chain_table {
 }
 chain_table!(
     (U2, U4, [1, 2]), (U2, U6, [1, 2]), (U2, U8t, [1, 2]), (U3, U6, [1, 2, 3]), (U3, U9, [1, 2, 3]), (U4, U8t, [1, 2, 3, 4]),
-    (u8, u16, [1, 4, 8]), (u8, u32, [4, 8]), (u16, u32, [8, 12, 16]), (u16, u64, [12, 16]), (u32, u64, [16, 24, 32]), (u32, u128, [24, 32])
+    (u8, u16, [1, 4, 8]), (u8, u32, [4, 8]), (u16, u32, [8, 12, 16]), (u16, u64, [12, 16]), (u32, u64, [16, 24, 32]), (u32, u128, [16, 24, 32]),
+    (u8, u128, [4, 8]), (u16, u128, [8, 16]), (u64, u128, [24, 32, 48]), (u8, u64, [4, 8])
 );
